@@ -77,13 +77,39 @@
     so chains are not affected.
   * nothing is assumed about the size of the value array of given weights (all
     three flavours allocate a new array: `np.concatenate` / `.loc[…].copy()`).
-  * not modelled here: `method='numpy'` (single cue / single outcome events),
-    `dict_wh`, the attrs of the returned DataArray, and that the DataArray
-    handed in is not modified (C03 decides the latter by the differential run).
+  * not modelled here: the attrs of the returned DataArray, and that the
+    DataArray handed in is not modified (C03 decides the latter by the
+    differential run).
+
+  "This holds for the OpenMP, numpy and pure-Python implementations alike"
+  (section "numpy and pure Python" at the end; models PyndlModel/WHPy.lean,
+  proofs PyndlProofs/WHPy.lean): `whNumpyModel` = `wh.wh(method='numpy')` and
+  `dictWhModel` = `dict_wh` accept exactly one cue and one outcome per event after
+  the duplicate policy (`IsSingle`; `AssertionError` otherwise:
+  `single_event_checks`).  On such event lists, with names in the tables:
+  * `wh_numpy_eq_spec`, `dict_wh_eq_spec` — from `weights=None` both are
+    `whR2RSpec` read through their labels, for every event sequence, eta, table
+    row order; `wh_numpy_eq_openmp`, `dict_wh_eq_openmp`,
+    `wh_implementations_alike` — hence the numpy result IS the OpenMP result
+    (same labelled matrix, any `n_outcomes_per_job ≥ 1`) and the dict reads as it
+    at every pair of keys (also after `make_data_array=True`);
+  * `wh_numpy_continue`, `wh_numpy_eq_openmp_continue`, `dict_wh_continue` —
+    continuation from given weights (DataArray re-aligned by label / WeightDict)
+    is the specification continued (`whR2RSpecFrom`); `wh_numpy_two_calls`,
+    `dict_wh_two_calls` — two calls = one pass (append law);
+  * `wh_numpy_table_check`, `wh_numpy_event_error`, `dict_wh_raises` — the error
+    branches (numpy: `ValueError` from the table check first; dict_wh: `KeyError`
+    at the event; `ValueError` / `AssertionError` of the first offending event).
+  Additional hypotheses (DESIGN §7): `IsSingle` of every policy-processed event;
+  `ct.dims.Nodup`, `ot.dims.Nodup` for `dict_wh` (dict keys) and for continued
+  numpy calls (as for OpenMP).  The order in which `make_data_array=True` lists
+  the cue dimensions is a Python `set` order (model: first occurrence); the
+  statements read through labels.
 -/
 import PyndlProofs.WH
 import PyndlProofs.WHSpec
 import PyndlProofs.WHChain
+import PyndlProofs.WHPy
 
 set_option linter.unusedVariables false  -- the `Nodup` label hypotheses delimit model = code, the proofs do not use them
 
@@ -867,5 +893,342 @@ example :
   obtain ⟨s₁, a, b, c, d⟩ := wh_chain_weights_carry_table_labels .r2b 0 1 1 3 (some exCT) none
     (exR2B.take 1) (exR2B.drop 1) s (by rw [List.take_append_drop]; exact hs)
   exact ⟨s, s₁, a, b, c, d⟩
+
+/-! ## numpy and pure Python: `wh.wh(method='numpy')` and `dict_wh` -/
+
+/-- **what both loops do with one event before learning from it**, in the order
+    of the code: `ValueError` when the duplicate policy rejects it; then
+    `AssertionError` when it does not have exactly one outcome; then
+    `AssertionError` when it does not have exactly one cue; otherwise the single
+    cue and outcome are learned. -/
+theorem single_event_checks (p : DupPolicy) (e : Event String String) :
+    (applyPolicy p e = none → singleEvent p e = .error (.std .value)) ∧
+    (∀ e', applyPolicy p e = some e' → e'.outcomes.length ≠ 1 → singleEvent p e = .error .assertion) ∧
+    (∀ e', applyPolicy p e = some e' → e'.outcomes.length = 1 → e'.cues.length ≠ 1 →
+      singleEvent p e = .error .assertion) ∧
+    (∀ e', applyPolicy p e = some e' → IsSingle e' →
+      ∃ c o, e' = ⟨[c], [o]⟩ ∧ singleEvent p e = .ok (c, o)) :=
+  singleEvent_cases p e
+
+/-- **`dict_wh` from `weights=None` = the Widrow–Hoff specification.**  For every
+    duplicate policy, eta, pair of tables with distinct dimension labels
+    (`hnc`, `hno`: they become dict keys) and any row order, every event list
+    whose names have rows in the tables (`htabc`, `htabo`; else `KeyError`,
+    `dict_wh_raises`), that the policy accepts (`hp`; else `ValueError`) and
+    whose policy-processed events have exactly one cue and one outcome (`hs`;
+    else `AssertionError`): the call succeeds and the returned dict, read at
+    EVERY pair of keys, holds `whR2RSpec` at the positions of the two labels —
+    and nothing (0) at any other key. -/
+theorem dict_wh_eq_spec (p : DupPolicy) (eta : R) (ct ot : VecTable R)
+    (hndc : ct.names.Nodup) (hndo : ot.names.Nodup)
+    (hnc : ct.dims.Nodup) (hno : ot.dims.Nodup)
+    (es es' : List (Event String String))
+    (htabc : ∀ e ∈ es, ∀ c ∈ e.cues, c ∈ ct.names)
+    (htabo : ∀ e ∈ es, ∀ o ∈ e.outcomes, o ∈ ot.names)
+    (hp : applyPolicyAll p es = some es') (hs : ∀ e ∈ es', IsSingle e) :
+    ∃ D, dictWhModel p eta ct ot [] es = .ok D ∧
+      ∀ dlo dlc, wdAbs D dlo dlc = if dlo ∈ ot.dims ∧ dlc ∈ ct.dims
+        then whR2RSpec eta ct ot es' (ot.dims.idxOf dlo) (ct.dims.idxOf dlc) else 0 :=
+  dictWhModel_get p eta ct ot hnc hno es es' htabc htabo hp hs
+
+/-- **`dict_wh(weights=W0)` = the specification continued from `W0`**
+    (`whR2RSpecFrom`, started from `W0` read at the tables' labels); entries of
+    `W0` under other keys are kept as they are. -/
+theorem dict_wh_continue (p : DupPolicy) (eta : R) (ct ot : VecTable R)
+    (hndc : ct.names.Nodup) (hndo : ot.names.Nodup)
+    (hnc : ct.dims.Nodup) (hno : ot.dims.Nodup)
+    (W0 : WDict String String R) (es es' : List (Event String String))
+    (htabc : ∀ e ∈ es, ∀ c ∈ e.cues, c ∈ ct.names)
+    (htabo : ∀ e ∈ es, ∀ o ∈ e.outcomes, o ∈ ot.names)
+    (hp : applyPolicyAll p es = some es') (hs : ∀ e ∈ es', IsSingle e) :
+    ∃ D, dictWhModel p eta ct ot W0 es = .ok D ∧
+      ∀ dlo dlc, wdAbs D dlo dlc = if dlo ∈ ot.dims ∧ dlc ∈ ct.dims
+        then whR2RSpecFrom eta ct ot (wdAtLabels W0 ot.dims ct.dims) es'
+          (ot.dims.idxOf dlo) (ct.dims.idxOf dlc)
+        else wdAbs W0 dlo dlc :=
+  dictWhModel_continue_get p eta ct ot hnc hno W0 es es' htabc htabo hp hs
+
+/-- **two `dict_wh` calls = one** (no hypothesis at all): the second call,
+    given the first one's `WeightDict`, returns — or raises — exactly what one
+    call over the concatenated events does. -/
+theorem dict_wh_two_calls (p : DupPolicy) (eta : R) (ct ot : VecTable R)
+    (W0 D1 : WDict String String R) (xs ys : List (Event String String))
+    (h1 : dictWhModel p eta ct ot W0 xs = .ok D1) :
+    dictWhModel p eta ct ot D1 ys = dictWhModel p eta ct ot W0 (xs ++ ys) :=
+  dictWhModel_two_calls p eta ct ot W0 D1 xs ys h1
+
+/-- **the error branches of `dict_wh`**: after accepted events `xs`, the FIRST
+    offending event decides, whatever follows — the policy's `ValueError` or an
+    `AssertionError` (`single_event_checks`), a `KeyError` for a cue without a
+    row in `cue_vectors` (looked up first), a `KeyError` for an outcome without
+    a row in `outcome_vectors`. -/
+theorem dict_wh_raises (p : DupPolicy) (eta : R) (ct ot : VecTable R)
+    (W : WDict String String R) (xs : List (Event String String)) (bad : Event String String)
+    (ys : List (Event String String)) (D : WDict String String R)
+    (hxs : dictWhModel p eta ct ot W xs = .ok D) :
+    (∀ x, singleEvent p bad = .error x → dictWhModel p eta ct ot W (xs ++ bad :: ys) = .error x) ∧
+    (∀ c o, singleEvent p bad = .ok (c, o) → c ∉ ct.names →
+      dictWhModel p eta ct ot W (xs ++ bad :: ys) = .error (.std .key)) ∧
+    (∀ c o, singleEvent p bad = .ok (c, o) → o ∉ ot.names →
+      dictWhModel p eta ct ot W (xs ++ bad :: ys) = .error (.std .key)) :=
+  dictWhLoop_error p eta ct ot W xs bad ys D hxs
+
+/-- **`wh.wh(method='numpy')` from `weights=None` = the Widrow–Hoff
+    specification**: hypotheses as for `dict_wh_eq_spec` without the ones on the
+    dimension labels; the result is labelled with the tables' dimensions and row
+    `d` is `whR2RSpec … d`. -/
+theorem wh_numpy_eq_spec (p : DupPolicy) (eta : R) (ct ot : VecTable R)
+    (hndc : ct.names.Nodup) (hndo : ot.names.Nodup)
+    (es es' : List (Event String String))
+    (htabc : ∀ e ∈ es, ∀ c ∈ e.cues, c ∈ ct.names)
+    (htabo : ∀ e ∈ es, ∀ o ∈ e.outcomes, o ∈ ot.names)
+    (hp : applyPolicyAll p es = some es') (hs : ∀ e ∈ es', IsSingle e) :
+    ∃ r, whNumpyModel p eta ct ot none es = .ok r ∧
+      r.outcomes = ot.dims ∧ r.cues = ct.dims ∧
+      r.vals.size = r.outcomes.length * r.cues.length ∧
+      ∀ d, d < ot.dims.length → r.byPos d = whR2RSpec eta ct ot es' d :=
+  whNumpyModel_eq_spec p eta ct ot es es' htabc htabo hp hs
+
+/-- **`wh.wh(method='numpy', weights=w)`**, `w` labelled with a permutation of
+    the tables' (distinct) dimension labels: the specification continued from
+    `w` read at the labels (hypotheses and conclusion of `wh_r2r_continue`). -/
+theorem wh_numpy_continue (p : DupPolicy) (eta : R) (ct ot : VecTable R)
+    (hndc : ct.names.Nodup) (hndo : ot.names.Nodup)
+    (w : LW R) (es es' : List (Event String String))
+    (htabc : ∀ e ∈ es, ∀ c ∈ e.cues, c ∈ ct.names)
+    (htabo : ∀ e ∈ es, ∀ o ∈ e.outcomes, o ∈ ot.names)
+    (hp : applyPolicyAll p es = some es') (hs : ∀ e ∈ es', IsSingle e)
+    (hpo : w.outcomes.Perm ot.dims) (hpc : w.cues.Perm ct.dims)
+    (hno : ot.dims.Nodup) (hnc : ct.dims.Nodup) :
+    ∃ r, whNumpyModel p eta ct ot (some w) es = .ok r ∧
+      r.outcomes = ot.dims ∧ r.cues = ct.dims ∧
+      r.vals.size = r.outcomes.length * r.cues.length ∧
+      ∀ d, d < ot.dims.length →
+        r.byPos d = whR2RSpecFrom eta ct ot (w.atLabels ot.dims ct.dims) es' d :=
+  whNumpyModel_continue_perm p eta ct ot w es es' htabc htabo hp hs hpo hpc hno hnc
+
+/-- **two numpy calls = one pass**: the second call continuing from the first
+    one's DataArray (policies may differ) ends with `whR2RSpec` over the
+    concatenated policy-processed events. -/
+theorem wh_numpy_two_calls (p₁ p₂ : DupPolicy) (eta : R) (ct ot : VecTable R)
+    (hndc : ct.names.Nodup) (hndo : ot.names.Nodup)
+    (hno : ot.dims.Nodup) (hnc : ct.dims.Nodup)
+    (xs xs' ys ys' : List (Event String String))
+    (htabc : ∀ e ∈ xs ++ ys, ∀ c ∈ e.cues, c ∈ ct.names)
+    (htabo : ∀ e ∈ xs ++ ys, ∀ o ∈ e.outcomes, o ∈ ot.names)
+    (hpx : applyPolicyAll p₁ xs = some xs') (hsx : ∀ e ∈ xs', IsSingle e)
+    (hpy : applyPolicyAll p₂ ys = some ys') (hsy : ∀ e ∈ ys', IsSingle e) :
+    ∃ r₁ r₂, whNumpyModel p₁ eta ct ot none xs = .ok r₁ ∧
+      whNumpyModel p₂ eta ct ot (some r₁) ys = .ok r₂ ∧
+      r₂.outcomes = ot.dims ∧ r₂.cues = ct.dims ∧
+      ∀ d, d < ot.dims.length → r₂.byPos d = whR2RSpec eta ct ot (xs' ++ ys') d :=
+  whNumpyModel_two_calls p₁ p₂ eta ct ot hno hnc xs xs' ys ys' htabc htabo hpx hsx hpy hsy
+
+/-- the numpy branch checks the names of the WHOLE file against the tables
+    before anything else: a name without a vector ⇒ `ValueError`, whatever the
+    weights, the policy and the shape of the events -/
+theorem wh_numpy_table_check (p : DupPolicy) (eta : R) (ct ot : VecTable R)
+    (W0 : Option (LW R)) (es : List (Event String String))
+    (hbad : (∃ e ∈ es, ∃ c ∈ e.cues, c ∉ ct.names) ∨ (∃ e ∈ es, ∃ o ∈ e.outcomes, o ∉ ot.names)) :
+    whNumpyModel p eta ct ot W0 es = .error (.std .value) :=
+  whNumpyModel_tableError p eta ct ot W0 es hbad
+
+/-- tables fine, `weights=None`: after accepted single events `xs` the first
+    event the loop rejects (`single_event_checks`) decides -/
+theorem wh_numpy_event_error (p : DupPolicy) (eta : R) (ct ot : VecTable R)
+    (xs : List (Event String String)) (bad : Event String String) (ys : List (Event String String))
+    (xs' : List (Event String String)) (x : PyErr)
+    (htabc : ∀ e ∈ xs ++ bad :: ys, ∀ c ∈ e.cues, c ∈ ct.names)
+    (htabo : ∀ e ∈ xs ++ bad :: ys, ∀ o ∈ e.outcomes, o ∈ ot.names)
+    (hp : applyPolicyAll p xs = some xs') (hs : ∀ e ∈ xs', IsSingle e)
+    (hbad : singleEvent p bad = .error x) :
+    whNumpyModel p eta ct ot none (xs ++ bad :: ys) = .error x :=
+  whNumpyModel_eventError p eta ct ot xs bad ys xs' x htabc htabo hp hs hbad
+
+/-- **numpy = OpenMP** (from `weights=None`): THE SAME labelled matrix, for
+    every `n_outcomes_per_job ≥ 1` (compose with `wh_r2r_end_to_end`). -/
+theorem wh_numpy_eq_openmp (p : DupPolicy) (eta β₁ β₂ lam : R) (ct ot : VecTable R)
+    (hndc : ct.names.Nodup) (hndo : ot.names.Nodup)
+    (chunk : Nat) (hc : 1 ≤ chunk) (es es' : List (Event String String))
+    (htabc : ∀ e ∈ es, ∀ c ∈ e.cues, c ∈ ct.names)
+    (htabo : ∀ e ∈ es, ∀ o ∈ e.outcomes, o ∈ ot.names)
+    (hp : applyPolicyAll p es = some es') (hs : ∀ e ∈ es', IsSingle e) :
+    ∃ r, whNumpyModel p eta ct ot none es = .ok r ∧
+      whModel .r2r p eta β₁ β₂ lam (some ct) (some ot) chunk none es = .ok r :=
+  whNumpyModel_eq_whModel p eta β₁ β₂ lam ct ot chunk hc es es' htabc htabo hp hs
+
+/-- **numpy = OpenMP, continued from given weights** (labels a permutation of
+    the tables' distinct dimension labels) -/
+theorem wh_numpy_eq_openmp_continue (p : DupPolicy) (eta β₁ β₂ lam : R) (ct ot : VecTable R)
+    (hndc : ct.names.Nodup) (hndo : ot.names.Nodup)
+    (chunk : Nat) (hc : 1 ≤ chunk) (w : LW R) (es es' : List (Event String String))
+    (htabc : ∀ e ∈ es, ∀ c ∈ e.cues, c ∈ ct.names)
+    (htabo : ∀ e ∈ es, ∀ o ∈ e.outcomes, o ∈ ot.names)
+    (hp : applyPolicyAll p es = some es') (hs : ∀ e ∈ es', IsSingle e)
+    (hpo : w.outcomes.Perm ot.dims) (hpc : w.cues.Perm ct.dims)
+    (hno : ot.dims.Nodup) (hnc : ct.dims.Nodup) :
+    ∃ r, whNumpyModel p eta ct ot (some w) es = .ok r ∧
+      whModel .r2r p eta β₁ β₂ lam (some ct) (some ot) chunk (some w) es = .ok r :=
+  whNumpyModel_eq_whModel_continue p eta β₁ β₂ lam ct ot chunk hc w es es' htabc htabo hp hs hpo hpc hno hnc
+
+/-- **`dict_wh` = OpenMP** (from `weights=None`), read through the labels at
+    EVERY pair of keys, also after `make_data_array=True` -/
+theorem dict_wh_eq_openmp (p : DupPolicy) (eta β₁ β₂ lam : R) (ct ot : VecTable R)
+    (hndc : ct.names.Nodup) (hndo : ot.names.Nodup)
+    (hnc : ct.dims.Nodup) (hno : ot.dims.Nodup)
+    (chunk : Nat) (hc : 1 ≤ chunk) (es es' : List (Event String String))
+    (htabc : ∀ e ∈ es, ∀ c ∈ e.cues, c ∈ ct.names)
+    (htabo : ∀ e ∈ es, ∀ o ∈ e.outcomes, o ∈ ot.names)
+    (hp : applyPolicyAll p es = some es') (hs : ∀ e ∈ es', IsSingle e) :
+    ∃ D r, dictWhModel p eta ct ot [] es = .ok D ∧
+      dictWhModelArray p eta ct ot [] es = .ok (lwFromDict D) ∧
+      whModel .r2r p eta β₁ β₂ lam (some ct) (some ot) chunk none es = .ok r ∧
+      (∀ dlo dlc, wdAbs D dlo dlc = r.get dlo dlc) ∧
+      (∀ dlo dlc, (lwFromDict D).get dlo dlc = r.get dlo dlc) :=
+  dictWhModel_eq_whModel p eta β₁ β₂ lam ct ot hnc hno chunk hc es es' htabc htabo hp hs
+
+/-- **"for the OpenMP, numpy and pure-Python implementations alike"**: on event
+    lists whose events have exactly one cue and one outcome after the duplicate
+    policy (the only ones numpy and `dict_wh` accept), the three models succeed
+    together; numpy returns the OpenMP matrix itself, `dict_wh` a dict that reads
+    as that matrix at every pair of labels; and that matrix is `whR2RSpec`. -/
+theorem wh_implementations_alike (p : DupPolicy) (eta β₁ β₂ lam : R) (ct ot : VecTable R)
+    (hndc : ct.names.Nodup) (hndo : ot.names.Nodup)
+    (hnc : ct.dims.Nodup) (hno : ot.dims.Nodup)
+    (chunk : Nat) (hc : 1 ≤ chunk) (es es' : List (Event String String))
+    (htabc : ∀ e ∈ es, ∀ c ∈ e.cues, c ∈ ct.names)
+    (htabo : ∀ e ∈ es, ∀ o ∈ e.outcomes, o ∈ ot.names)
+    (hp : applyPolicyAll p es = some es') (hs : ∀ e ∈ es', IsSingle e) :
+    ∃ r D, whModel .r2r p eta β₁ β₂ lam (some ct) (some ot) chunk none es = .ok r ∧
+      whNumpyModel p eta ct ot none es = .ok r ∧
+      dictWhModel p eta ct ot [] es = .ok D ∧
+      (∀ dlo dlc, wdAbs D dlo dlc = r.get dlo dlc) ∧
+      r.outcomes = ot.dims ∧ r.cues = ct.dims ∧
+      ∀ d, d < ot.dims.length → r.byPos d = whR2RSpec eta ct ot es' d := by
+  obtain ⟨r, h1, h2⟩ := wh_numpy_eq_openmp p eta β₁ β₂ lam ct ot hndc hndo chunk hc es es' htabc htabo hp hs
+  obtain ⟨D, r', g1, _, g3, g4, _⟩ :=
+    dict_wh_eq_openmp p eta β₁ β₂ lam ct ot hndc hndo hnc hno chunk hc es es' htabc htabo hp hs
+  obtain ⟨r'', k1, k2, k3, _, k5⟩ := wh_numpy_eq_spec p eta ct ot hndc hndo es es' htabc htabo hp hs
+  have e1 : r' = r := by rw [h2] at g3; exact (Except.ok.inj g3).symm
+  have e2 : r'' = r := by rw [h1] at k1; exact (Except.ok.inj k1).symm
+  rw [e1] at g4
+  rw [e2] at k2 k3 k5
+  exact ⟨r, D, h2, h1, g1, g4, k2, k3, k5⟩
+
+/-! ### non-vacuity of the numpy / pure-Python theorems (ℤ, the tables above) -/
+
+/-- three events; the second one only becomes single through `remove_duplicates=True` -/
+def exSingles : List (Event String String) := [⟨["a"], ["x"]⟩, ⟨["b", "b"], ["y", "y"]⟩, ⟨["c"], ["x"]⟩]
+def exSingles' : List (Event String String) := [⟨["a"], ["x"]⟩, ⟨["b"], ["y"]⟩, ⟨["c"], ["x"]⟩]
+
+/-- (definitional: non-vacuity facts, not a property theorem) the hypotheses shared by the
+    theorems of this section hold for the example -/
+theorem exSingles_hyps :
+    exCT.names.Nodup ∧ exOT.names.Nodup ∧ exCT.dims.Nodup ∧ exOT.dims.Nodup ∧
+    (∀ e ∈ exSingles, ∀ c ∈ e.cues, c ∈ exCT.names) ∧ (∀ e ∈ exSingles, ∀ o ∈ e.outcomes, o ∈ exOT.names) ∧
+    applyPolicyAll .dedup exSingles = some exSingles' ∧ (∀ e ∈ exSingles', IsSingle e) := by
+  refine ⟨by decide, by decide, by decide, by decide, by decide +kernel, by decide +kernel,
+    by decide +kernel, by decide +kernel⟩
+
+/-- `wh_implementations_alike` with EVERY hypothesis instantiated (η = 1, three
+    outcome dimensions per job) -/
+example :
+    ∃ r D, whModel .r2r .dedup (1 : ℤ) 0 0 0 (some exCT) (some exOT) 3 none exSingles = .ok r ∧
+      whNumpyModel .dedup (1 : ℤ) exCT exOT none exSingles = .ok r ∧
+      dictWhModel .dedup (1 : ℤ) exCT exOT [] exSingles = .ok D ∧
+      (∀ dlo dlc, wdAbs D dlo dlc = r.get dlo dlc) ∧
+      r.outcomes = exOT.dims ∧ r.cues = exCT.dims ∧
+      ∀ d, d < exOT.dims.length → r.byPos d = whR2RSpec 1 exCT exOT exSingles' d :=
+  wh_implementations_alike .dedup 1 0 0 0 exCT exOT exSingles_hyps.1 exSingles_hyps.2.1
+    exSingles_hyps.2.2.1 exSingles_hyps.2.2.2.1 3 (by decide) exSingles exSingles'
+    exSingles_hyps.2.2.2.2.1 exSingles_hyps.2.2.2.2.2.1 exSingles_hyps.2.2.2.2.2.2.1
+    exSingles_hyps.2.2.2.2.2.2.2
+
+def showPy : Except PyErr (LW ℤ) → Option (List String × List String × Array ℤ)
+  | .ok w => some (w.outcomes, w.cues, w.vals)
+  | .error _ => none
+
+def showPyErr : Except PyErr (LW ℤ) → Option PyErr
+  | .ok _ => none
+  | .error x => some x
+
+/-- the three models run (kernel-evaluated) and give the same non-trivial
+    numbers: a → x: W = [[1,0],[2,0]]; b → y: pred = (1,2), err = (−1,1):
+    W = [[0,−1],[3,1]]; c → x: pred = (−2,2), err = (3,0): W = [[0,5],[3,1]];
+    `dict_wh` creates the rows `d0`, `d1` with the keys `k0`, `k1` -/
+example :
+    showCall (whModel .r2r .dedup (1 : ℤ) 0 0 0 (some exCT) (some exOT) 3 none exSingles)
+      = some (["d0", "d1"], ["k0", "k1"], #[0, 5, 3, 1]) ∧
+    showPy (whNumpyModel .dedup (1 : ℤ) exCT exOT none exSingles)
+      = some (["d0", "d1"], ["k0", "k1"], #[0, 5, 3, 1]) ∧
+    dictWhModel .dedup (1 : ℤ) exCT exOT [] exSingles
+      = .ok [("d0", [("k0", 0), ("k1", 5)]), ("d1", [("k0", 3), ("k1", 1)])] ∧
+    showPy (dictWhModelArray .dedup (1 : ℤ) exCT exOT [] exSingles)
+      = some (["d0", "d1"], ["k0", "k1"], #[0, 5, 3, 1]) := by
+  refine ⟨by decide +kernel, by decide +kernel, by decide +kernel, by decide +kernel⟩
+
+/-- the error branches, as observed on the real code: a repeated cue under
+    `None` ⇒ `ValueError`, under `False` ⇒ `AssertionError` (two cues); no outcome /
+    two outcomes ⇒ `AssertionError` (checked before the cues and before the
+    look-ups); an unknown cue ⇒ `KeyError` in `dict_wh` at that event but
+    `ValueError` in the numpy branch, even when an EARLIER event would fail its
+    assertion; `dict_wh` on zero events returns the empty dict, numpy the zero matrix -/
+example :
+    dictWhModel .error (1 : ℤ) exCT exOT [] [⟨["a", "a"], ["x"]⟩] = .error (.std .value) ∧
+    dictWhModel .keep (1 : ℤ) exCT exOT [] [⟨["a", "a"], ["x"]⟩] = .error .assertion ∧
+    dictWhModel .keep (1 : ℤ) exCT exOT [] [⟨["a", "q"], []⟩] = .error .assertion ∧
+    dictWhModel .keep (1 : ℤ) exCT exOT [] [⟨["a"], ["x"]⟩, ⟨["q"], ["q2"]⟩] = .error (.std .key) ∧
+    dictWhModel .keep (1 : ℤ) exCT exOT [] [⟨["a"], ["q2"]⟩] = .error (.std .key) ∧
+    dictWhModel .keep (1 : ℤ) exCT exOT [] [] = .ok [] ∧
+    showPy (whNumpyModel .keep (1 : ℤ) exCT exOT none [⟨["a", "b"], ["x"]⟩, ⟨["q"], ["x"]⟩]) = none ∧
+    showPyErr (whNumpyModel .keep (1 : ℤ) exCT exOT none [⟨["a", "b"], ["x"]⟩, ⟨["q"], ["x"]⟩])
+      = some (.std .value) ∧
+    showPyErr (whNumpyModel .keep (1 : ℤ) exCT exOT none [⟨["a", "b"], ["x"]⟩, ⟨["a", "a"], ["x"]⟩])
+      = some .assertion ∧
+    showPyErr (whNumpyModel .error (1 : ℤ) exCT exOT none [⟨["a"], ["x"]⟩, ⟨["a", "a"], ["x"]⟩])
+      = some (.std .value) ∧
+    showPy (whNumpyModel .keep (1 : ℤ) exCT exOT none []) = some (["d0", "d1"], ["k0", "k1"], #[0, 0, 0, 0]) := by
+  refine ⟨by decide +kernel, by decide +kernel, by decide +kernel, by decide +kernel, by decide +kernel,
+    by decide +kernel, by decide +kernel, by decide +kernel, by decide +kernel, by decide +kernel,
+    by decide +kernel⟩
+
+/-- `wh_numpy_continue` instantiated on given weights with PERMUTED labels (the
+    input of the example for `wh_r2r_continue` above), and the numbers: the
+    re-aligned start `[[4,3],[2,1]]`, one step with `x = a = (1, 0)`,
+    `t = x = (1, 2)`: row 0: `u = 1 − 4 = −3` ⇒ `(1, 3)`; row 1: `u = 2 − 2 = 0` -/
+example :
+    (∃ r, whNumpyModel .dedup (1 : ℤ) exCT exOT (some ⟨["d1", "d0"], ["k1", "k0"], #[1, 2, 3, 4]⟩)
+        [⟨["a", "a"], ["x"]⟩] = .ok r ∧
+      r.outcomes = exOT.dims ∧ r.cues = exCT.dims ∧
+      r.vals.size = r.outcomes.length * r.cues.length ∧
+      ∀ d, d < exOT.dims.length →
+        r.byPos d = whR2RSpecFrom 1 exCT exOT
+          ((⟨["d1", "d0"], ["k1", "k0"], #[1, 2, 3, 4]⟩ : LW ℤ).atLabels exOT.dims exCT.dims)
+          [⟨["a"], ["x"]⟩] d) ∧
+    showPy (whNumpyModel .dedup (1 : ℤ) exCT exOT (some ⟨["d1", "d0"], ["k1", "k0"], #[1, 2, 3, 4]⟩)
+        [⟨["a", "a"], ["x"]⟩]) = some (["d0", "d1"], ["k0", "k1"], #[1, 3, 2, 1]) :=
+  ⟨wh_numpy_continue .dedup 1 exCT exOT (by decide) (by decide) _ _ _
+    (by decide +kernel) (by decide +kernel) (by decide +kernel) (by decide +kernel)
+    (by decide) (by decide) (by decide) (by decide), by decide +kernel⟩
+
+/-- `dict_wh_continue` and `dict_wh_two_calls` instantiated: continuing from the
+    dict of the first event (with a foreign entry `zz`, which is kept) -/
+example :
+    (∃ D, dictWhModel .dedup (1 : ℤ) exCT exOT [("d0", [("k0", 1), ("zz", 7)]), ("d1", [("k0", 2)])]
+        (exSingles.drop 1) = .ok D ∧
+      ∀ dlo dlc, wdAbs D dlo dlc = if dlo ∈ exOT.dims ∧ dlc ∈ exCT.dims
+        then whR2RSpecFrom 1 exCT exOT
+          (wdAtLabels [("d0", [("k0", 1), ("zz", 7)]), ("d1", [("k0", 2)])] exOT.dims exCT.dims)
+          (exSingles'.drop 1) (exOT.dims.idxOf dlo) (exCT.dims.idxOf dlc)
+        else wdAbs [("d0", [("k0", (1 : ℤ)), ("zz", 7)]), ("d1", [("k0", 2)])] dlo dlc) ∧
+    dictWhModel .dedup (1 : ℤ) exCT exOT [("d0", [("k0", 1), ("zz", 7)]), ("d1", [("k0", 2)])] (exSingles.drop 1)
+      = .ok [("d0", [("k0", 0), ("zz", 7), ("k1", 5)]), ("d1", [("k0", 3), ("k1", 1)])] ∧
+    dictWhModel .dedup (1 : ℤ) exCT exOT [("d0", [("k0", 1), ("k1", 0)]), ("d1", [("k0", 2), ("k1", 0)])]
+        (exSingles.drop 1)
+      = dictWhModel .dedup (1 : ℤ) exCT exOT [] (exSingles.take 1 ++ exSingles.drop 1) :=
+  ⟨dict_wh_continue .dedup 1 exCT exOT (by decide) (by decide) (by decide) (by decide) _ _ _
+    (by decide +kernel) (by decide +kernel) (by decide +kernel) (by decide +kernel),
+   by decide +kernel,
+   dict_wh_two_calls .dedup 1 exCT exOT [] _ (exSingles.take 1) (exSingles.drop 1) (by decide +kernel)⟩
 
 end Pyndl.C08
